@@ -120,6 +120,63 @@ def w_wrap(ki: int, seed: int, thorough: bool) -> Part:
     return part
 
 
+def w_group(ki: int, seed: int) -> Part:
+    """The second user of the wrapping code: SecureGroup (secure routing; session id 0, timer as sequence information, a RANDOM
+    message tag per frame - the harness-owned source returns a different value on every call)."""
+    import types
+
+    from xknx.io.ip_secure import SecureGroup
+    from xknx.knxip import SecureWrapper
+
+    part = Part()
+    key = keys(seed)[ki]
+    saved = ip_secure_mod.random
+    n = {"i": 0}
+
+    def randbytes(k: int) -> bytes:
+        n["i"] += 1
+        return ((0x5A00 + 37 * n["i"]) & 0xFFFF).to_bytes(2, "big")[:k]
+
+    ip_secure_mod.random = types.SimpleNamespace(uniform=lambda a, b: a, randbytes=randbytes)
+    try:
+        with World() as w:
+            w.loop._vtime = 5000.0  # noqa: SLF001
+            g = SecureGroup(("192.168.1.2", 0), ("224.0.23.12", 3671), key)
+            try:
+                for plain in plain_frames():
+                    part.evaluations += 1
+                    part.nontrivial += 1
+                    case = {"kind": "group", "ki": ki, "frame": plain, "seed": seed}
+                    frame, _ = KNXIPFrame.from_knx(plain)
+                    try:
+                        wf = g.encrypt_frame(frame)
+                        wrapped = wf.to_knx()
+                    except Exception as exc:  # noqa: BLE001
+                        part.viol(exc_sig("group-wrap-raises", exc), f"frame={plain.hex()}: {exc!r}", case, rank=(len(plain),))
+                        continue
+                    body = wf.body
+                    assert isinstance(body, SecureWrapper)
+                    ref = ipsec.wrap(key, 0, body.sequence_information, body.serial_number, body.message_tag, plain)
+                    if wrapped != ref:
+                        where = "mac" if wrapped[:-16] == ref[:-16] else "ciphertext" if wrapped[:22] == ref[:22] else "header-fields"
+                        part.viol(f"group-wrapper-differs-from-reference:{where}", f"frame={plain.hex()}: xknx {wrapped.hex()}, reference for the fields it carries {ref.hex()}", case, rank=(len(plain),))
+                    elif ipsec.unwrap(key, 0, wrapped) != plain:
+                        part.viol("group-wrapper-does-not-unwrap", f"frame={plain.hex()}", case, rank=(len(plain),))
+                    # a conformant peer's wrapper (its own serial and tag) is unwrapped to the plain frame
+                    peer = ipsec.wrap(key, 0, body.sequence_information, bytes.fromhex("00fa12345678"), b"\x12\x34", plain)
+                    try:
+                        back = g.decrypt_frame(KNXIPFrame.from_knx(peer)[0])
+                        if back.to_knx() != plain:
+                            part.viol("group-unwrap-changes-frame", f"{plain.hex()} -> {back.to_knx().hex()}", case, rank=(len(plain),))
+                    except Exception as exc:  # noqa: BLE001
+                        part.viol(exc_sig("group-reference-wrapper-rejected", exc), f"frame={plain.hex()}: {exc!r}", case, rank=(len(plain),))
+            finally:
+                g.secure_timer.stop()
+    finally:
+        ip_secure_mod.random = saved
+    return part
+
+
 def w_handshake(seed: int) -> Part:
     part = Part()
     privs = [bytes(range(1, 33)), bytes(range(100, 132)), seed_bytes(seed, 32, 72)]
@@ -204,10 +261,12 @@ def run(ctx: Ctx) -> None:
     ctx.rule = (
         "SecureSession.encrypt_frame == independent reference (validated against the worked example of 03.08.09) byte for byte and decrypt_frame(reference wrapper) == plain frame for: minimal/"
         "typical frames of every body class + TunnellingRequests with cEMI lengths {0,1,15,16,17,255} x 3 keys x session id {1,65535} x sequence {0,1,2^48-1}; wrong key / wrong session id and "
-        "EVERY single-bit flip of a subset of wrappers rejected, as are parsed wrappers whose header object was altered; handshake: 3x2 key pairs x passwords {a,secret,u-umlaut} x user ids {1,2,127} x with/without device authentication x 2 session ids: "
+        "EVERY single-bit flip of a subset of wrappers rejected, the same frames through SecureGroup.encrypt_frame (secure routing: session id 0, timer value, a random message tag that differs on every draw) "
+        "must equal the reference wrapper for the fields they carry and a peer's reference wrapper must unwrap, as are parsed wrappers whose header object was altered; handshake: 3x2 key pairs x passwords {a,secret,u-umlaut} x user ids {1,2,127} x with/without device authentication x 2 session ids: "
         "authenticate MAC and session key equal the reference, forged SessionResponse MACs rejected; TimerNotify MACs equal the reference"
     )
     ctx.pmap(w_wrap, [(k, ctx.seed, ctx.thorough) for k in range(3)])
+    ctx.pmap(w_group, [(k, ctx.seed) for k in range(3)])
     ctx.pmap(w_handshake, [(ctx.seed,)])
     ctx.pmap(w_timer, [(ctx.seed,)])
 
@@ -215,6 +274,8 @@ def run(ctx: Ctx) -> None:
 def replay(case: Any) -> list[tuple[str, str]]:
     if case.get("kind") == "wrap":
         p = w_wrap(case["ki"], case.get("seed", 0), True)
+    elif case.get("kind") == "group":
+        p = w_group(case["ki"], case.get("seed", 0))
     elif case.get("kind") == "handshake":
         p = w_handshake(0)
     else:
